@@ -16,7 +16,7 @@ Dom(f) == CASE f = "kind" -> {"bw", "bb"} [] f = "ds" -> {1, 2, 3}
             [] f = "bins" -> 0..(LenC + 3)             \* 0 = per-base output
             [] f = "exact" -> {1, 1, 0}     \* 0: the default mode of values(): bins interpolated from the closest zoom level when one is coarse enough
             [] f = "arr" -> {0, 1}          \* 1: the caller supplies a (dirty, reused) output array
-            [] f = "stat" -> {"mean", "min", "max"} [] f = "missing" -> {0, -1, 5, 99} [] f = "oob" -> {0, -1, 5, 99}
+            [] f = "stat" -> {"mean", "min", "max"} [] f = "missing" -> {0, -1, 1, 2, 5, 99} [] f = "oob" -> {0, -1, 5, 99}      \* (1 and 2: fill values that are also plausible depths)
 Init == cfg = <<>> /\ step = 1
 Next == /\ step <= Len(Fields)
         /\ \E v \in Dom(Fields[step]) :
